@@ -36,54 +36,77 @@ def fresh_text(ctx, base):
 
 
 # ------------------------------------------------------------------------------------ io buffers
-@register(name="io:BytesIO", real=io.BytesIO)
-class BytesIOModel:
-    real_class = io.BytesIO
-    IS_TEXT = False
+class IOBufModel:
+    """io.BytesIO / io.StringIO as used by WebsocketBuffer: one abstract buffer with a flag saying
+    which of the two it is (symbolic for an arbitrary pre-state, so no fork is needed)"""
 
-    def new(self, interp, cls, args, kwargs, fr):
+    def _mk(self, interp, is_text, content, tag):
+        return SObj("io:IOBuf", {"is_text": is_text, "content": content}, tag=tag)
+
+    def new_real(self, interp, cls, args, kwargs, fr):
+        p = ops.payload_lit(interp.ctx, b"")
+        if cls is io.StringIO:
+            return self._mk(interp, True, SymText(p.t, p.n), "stringio")
         init = args[0] if args else b""
-        content = ops.as_payload(interp.ctx, init)
-        return SObj(cls, {"content": content}, tag="bytesio")
+        return self._mk(interp, False, ops.as_payload(interp.ctx, init), "bytesio")
 
     def symbolic(self, interp, name):
-        return SObj(io.BytesIO, {"content": ops.fresh_payload(interp.ctx, name + ".content")}, tag=name)
+        ctx = interp.ctx
+        nm = ctx.fresh_name(name + ".is_text")
+        flag = z3.Bool(nm)
+        ctx.inputs[nm] = flag
+        return self._mk(interp, SymBool(flag), ops.fresh_payload(ctx, name + ".content"), name)
+
+    def isinstance_of(self, interp, obj, cl):
+        t = obj.fields["is_text"]
+        tz = z3.BoolVal(t) if isinstance(t, bool) else t.e
+        if cl is io.StringIO:
+            return tz
+        if cl is io.BytesIO:
+            return z3.Not(tz)
+        if cl is object:
+            return z3.BoolVal(True)
+        return z3.BoolVal(False)
+
+    def _is_text(self, interp, obj, fr):
+        t = obj.fields["is_text"]
+        if isinstance(t, bool):
+            return t
+        return interp.ctx.branch(t.e, f"is_text@{fr.line}")
 
     def m_write(self, interp, obj, args, kwargs, fr):
         data = args[0]
-        if isinstance(data, SymText) or isinstance(data, (str, SymStr)) and not (isinstance(data, SymStr) and data.kind == "bytes"):
-            raise mk_exc(TypeError, "a bytes-like object is required, not 'str'", where=fr.where())
+        text_data = isinstance(data, (SymText, str)) or (isinstance(data, SymStr) and data.kind == "str")
+        if self._is_text(interp, obj, fr) != text_data:
+            raise mk_exc(TypeError, "write(): wrong argument type for this buffer", where=fr.where())
+        if isinstance(data, (str, SymStr)) and not isinstance(data, SymText):
+            raise Unsupported("IO write of short string")
         p = ops.as_payload(interp.ctx, data)
-        obj.fields["content"] = ops.payload_cat(interp.ctx, obj.fields["content"], p)
+        c = ops.payload_cat(interp.ctx, obj.fields["content"], p)
+        obj.fields["content"] = c
         return mk_int(p.n)
 
     def m_getvalue(self, interp, obj, args, kwargs, fr):
+        c = obj.fields["content"]
+        if self._is_text(interp, obj, fr):
+            return SymText(c.t, c.n)
+        return SymBytes(c.t, c.n)
+
+    def get_content(self, interp, obj, fr):
         return obj.fields["content"]
 
 
-@register(name="io:StringIO", real=io.StringIO)
-class StringIOModel:
-    real_class = io.StringIO
+_iobuf = IOBufModel()
+MODEL_CLASSES["io:IOBuf"] = _iobuf
 
+
+class _RealIO:
     def new(self, interp, cls, args, kwargs, fr):
-        p = ops.payload_lit(interp.ctx, b"")
-        return SObj(cls, {"content": SymText(p.t, p.n)}, tag="stringio")
+        return _iobuf.new_real(interp, cls, args, kwargs, fr)
 
-    def symbolic(self, interp, name):
-        return SObj(io.StringIO, {"content": fresh_text(interp.ctx, name + ".content")}, tag=name)
 
-    def m_write(self, interp, obj, args, kwargs, fr):
-        data = args[0]
-        if not isinstance(data, (SymText, str)) and not (isinstance(data, SymStr) and data.kind == "str"):
-            raise mk_exc(TypeError, "string argument expected, got 'bytes'", where=fr.where())
-        if isinstance(data, (str, SymStr)):
-            raise Unsupported("StringIO.write of short string")
-        c = ops.payload_cat(interp.ctx, obj.fields["content"], data)
-        obj.fields["content"] = SymText(c.t, c.n)
-        return mk_int(data.n)
-
-    def m_getvalue(self, interp, obj, args, kwargs, fr):
-        return obj.fields["content"]
+MODEL_BY_REAL[io.BytesIO] = _RealIO()
+MODEL_BY_REAL[io.StringIO] = _RealIO()
 
 
 # ------------------------------------------------------------------------------------ events
